@@ -244,6 +244,14 @@ def extra_C08(pid, tier, seed):
     cov = {"equalities_checked": 0, "cfgs": []}
     violations = []
     evaluations = 0
+    # chunking invariance on the real code at a size no model run reaches: ONE update call with more than
+    # 2^31 bytes vs the same bytes in 1 MiB calls (digest and counter), one variant per family per run
+    import props as _props
+    for fam in ("blake", "skein", "jh", "groestl"):
+        ev = _props._single_extra(fam)(pid, "quick", seed)
+        violations += ev["violations"]
+        evaluations += ev["evaluations"]
+        cov["single_update_jobs"] = cov.get("single_update_jobs", 0) + ev["coverage"]["single_update_jobs"]
     for cfg in (["std-release"] if tier == "quick" else ["std-release", "std-debug"]):
         bok, binp, hlog = cclib.harness_build(cfg)
         if not bok:
